@@ -20,6 +20,8 @@ func VerifH16() {
 	}
 	nd.Bound("H16.preemption_bound", P)
 	nd.Bound("H16.sends", S)
+	// the happens-before monitor watches the pool's own state and the node pool of its deferred list
+	nd.RaceMonitor(true)
 	nd.SetPreemptionBound(P)
 	p := New(Options{NumWorkers: 1, SendDuration: 1})
 	ctx := context.Background()
